@@ -57,6 +57,31 @@ def run(ctx):
     for c in connects:
         o = f.origin(f.term(c)["args"][0])
         ctx.ob("C20.1", "%s|connects-to-own-address|%s" % (f.id, "unix" if "unix" in call_name(f.term(c)) else "tcp"), "the wake-up connection targets the server's own listening address", "listening_addr" in origin_fields(o), f.loc(c))
+    # UNIX: the socket path is removed on every normal path (the only ways around it: a TCP listener, an unnamed address)
+    rm0 = set(bb for bb, t in f.calls() if call_matches(t, r"^std::fs::remove_file"))
+    skip = set()
+    for bb in sorted(f.live_blocks()):
+        sw = switch_on_discr(f, bb)
+        if not sw or f.blocks[bb]["cleanup"]:
+            continue
+        rv, m, otherwise, rest = sw
+        if rv.get("adt") == "connection::ListenAddr":
+            ipt = m.get("IP", otherwise if "IP" in rest else None)
+            # only the *last* test of the listener kind may be skipped through its IP arm: an IP arm that later
+            # joins the Unix path again does not excuse anything; so block IP arms from which no further ListenAddr test is reachable
+            if ipt is not None:
+                later = [b2 for b2 in f.reach([ipt], unwind=False) if b2 != bb and switch_on_discr(f, b2) and switch_on_discr(f, b2)[0].get("adt") == "connection::ListenAddr"]
+                if not later:
+                    skip.add(ipt)
+        if rv.get("adt") == "std::option::Option" and origin_has_call(f.origin_place(rv["pl"]), r"as_pathname$"):
+            nt = m.get("None", otherwise if "None" in rest else None)
+            if nt is not None:
+                skip.add(nt)
+    r_all = f.reach([0], blocked=rm0 | skip, unwind=False)
+    ok_all = bool(rm0) and not any(x in r_all for x in f.returns())
+    ctx.paths += 1
+    ctx.ob("C20.1", "%s|unix-path-removed-on-every-path" % f.id, "for a UNIX listener the socket path is removed on every path through Server::drop (also when the wake-up connection fails)",
+           ok_all, "%s:%d" % (f.file, f.line), None if ok_all else "a path reaches `return` without remove_file: %s" % f.path([0], f.returns(), blocked=rm0 | skip, unwind=False))
     # UNIX: remove_file on every normal path of the Unix arm
     rm = [bb for bb, t in f.calls() if call_matches(t, r"^std::fs::remove_file")]
     okrm = False
@@ -212,6 +237,13 @@ def run(ctx):
     na = [bb for bb, t2 in td.calls() if call_is(t2, "std::sync::Condvar::notify_all")]
     ok = len(st) == 1 and isinstance(op_const(st[0][1]["args"][1]), int) and op_const(st[0][1]["args"][1]) > MIN and bool(na) and td.dominates(st[0][0], na[0], unwind=False)
     ctx.ob("C20.4", "%s|pool-drop-retires-everyone" % td.id, "dropping the pool raises active_tasks above the minimum, then wakes every parked worker (so each re-evaluates and takes the timed branch)", ok, "%s:%d" % (td.file, td.line))
+    # a dispatch wakes ONE worker: waking all of them restarts the idle period of every worker that finds nothing to do, so
+    # under light steady traffic surplus workers never reach their idle timeout
+    spawn_ = roles.inherent(facts, TP, "spawn")
+    for g2, bb2, t2 in facts.all_calls(lambda t2: call_is(t2, "std::sync::Condvar::notify_all")):
+        if g2.rec.get("impl_self_adt") == TP or g2.id.startswith("util::task_pool::"):
+            ctx.ob("C20.4", "notify_all|%s" % g2.id, "only the pool's destructor wakes all workers; dispatching a connection wakes one", g2.id == td.id, g2.loc(bb2),
+                   None if g2.id == td.id else "every dispatch wakes every idle worker, each of which then starts a fresh 5 s wait: with one connection per idle period no surplus worker ever retires")
     # active_tasks writers
     shared.pool_counter_discipline(ctx, "C20.4")
     # the active guard lives for the whole worker: created before the first task, dropped on every exit including unwinding
